@@ -208,7 +208,7 @@ func TestHandler(t *testing.T) {
 				chain = append(chain, deriv{Group: g})
 				taken = map[string]bool{} // keys below the new group live in their own namespace
 			} else {
-				as, exp := genSlogAttrs(t, 3, labels, taken)
+				as, exp := genSlogAttrs(t, 7, labels, taken)
 				if len(as) == 0 {
 					continue
 				}
@@ -222,131 +222,142 @@ func TestHandler(t *testing.T) {
 			labels["derived-handler"] = true
 		}
 
-		level := logslog.Level(rapid.OneOf(rapid.IntRange(-20, 20), rapid.SampledFrom([]int{-4, 0, 4, 8})).Draw(t, "slogLevel"))
-		msg := rapid.OneOf(rapid.StringMatching(`[a-z]{1,8}( [a-z]{1,8}){0,3}`), vlib.GenAnyString()).Draw(t, "msg")
-		if strings.Trim(msg, " \t\r\n") == "" {
-			msg += "x" // non-standard levels are emitted at the Always severity, where a blank message is a bare newline (C02)
-		}
-		recAttrs, recExp := genSlogAttrs(t, 5, labels, taken)
-		ts := vlib.GenTime().Draw(t, "ts")
-		direct := rapid.Bool().Draw(t, "directHandle")
-		ctx := context.Background()
-
-		// Enabled must answer like the underlying logger's gating for the four standard levels
-		ns, std := namesake[level]
-		wantEnabled := true
-		if std {
-			wantEnabled = model.Admit(L, ns, debug)
-			if got := h.Enabled(ctx, level); got != wantEnabled {
-				vlib.Discrep(t, "C15/enabled", "C15 handler(level=%v, chain=%d).Enabled(%v) = %v, the logger's gating says %v", L, len(chain), level, got, wantEnabled)
+		nrec := rapid.SampledFrom([]int{1, 1, 2, 3}).Draw(t, "records")
+		for rec := 0; rec < nrec; rec++ {
+			log.Reset()
+			recTaken := map[string]bool{}
+			for k, v := range taken {
+				recTaken[k] = v
 			}
-		} else {
-			labels["non-standard-level"] = true
-		}
+			if rec > 0 {
+				labels["several-records-one-handler"] = true
+			}
+			level := logslog.Level(rapid.OneOf(rapid.IntRange(-20, 20), rapid.SampledFrom([]int{-4, 0, 4, 8})).Draw(t, "slogLevel"))
+			msg := rapid.OneOf(rapid.StringMatching(`[a-z]{1,8}( [a-z]{1,8}){0,3}`), vlib.GenAnyString()).Draw(t, "msg")
+			if strings.Trim(msg, " \t\r\n") == "" {
+				msg += "x" // non-standard levels are emitted at the Always severity, where a blank message is a bare newline (C02)
+			}
+			recAttrs, recExp := genSlogAttrs(t, 5, labels, recTaken)
+			ts := vlib.GenTime().Draw(t, "ts")
+			direct := rapid.Bool().Draw(t, "directHandle")
+			ctx := context.Background()
 
-		desc := fmt.Sprintf("format=%s loggerLevel=%v(viaOptions=%v) chain=%s slogLevel=%d direct=%v msg=%s attrs=[%s]",
-			format, L, viaOptLevel, describeChain(chain), int(level), direct, vlib.Short(msg), vlib.Describe(recExp))
-		func() {
-			defer func() {
-				if p := recover(); p != nil {
-					t.Fatalf("C15 %s: panicked: %v", desc, p)
-				}
-			}()
-			if direct {
-				r := logslog.NewRecord(ts, level, msg, 0)
-				r.AddAttrs(recAttrs...)
-				if err := h.Handle(ctx, r); err != nil {
-					t.Fatalf("C15 %s: Handle returned %v", desc, err)
+			// Enabled must answer like the underlying logger's gating for the four standard levels
+			ns, std := namesake[level]
+			wantEnabled := true
+			if std {
+				wantEnabled = model.Admit(L, ns, debug)
+				if got := h.Enabled(ctx, level); got != wantEnabled {
+					vlib.Discrep(t, "C15/enabled", "C15 handler(level=%v, chain=%d).Enabled(%v) = %v, the logger's gating says %v", L, len(chain), level, got, wantEnabled)
 				}
 			} else {
-				args := make([]any, len(recAttrs))
-				for i, a := range recAttrs {
-					args[i] = a
-				}
-				logslog.New(h).Log(ctx, level, msg, args...)
+				labels["non-standard-level"] = true
 			}
-		}()
-		writes := log.Writes()
-		wantEmit := direct || h.Enabled(ctx, level)
-		if std && !direct {
-			wantEmit = wantEnabled
-		}
-		switch {
-		case wantEmit && len(writes) != 1:
-			sig := "C15/emit"
-			if len(chain) > 0 {
-				sig = "C15/derived-handler"
-			}
-			vlib.Discrep(t, sig, "C15 %s: expected exactly one record on the underlying logger's writers, got %d", desc, len(writes))
-			goto classify
-		case !wantEmit && len(writes) != 0:
-			vlib.Discrep(t, "C15/emit", "C15 %s: gated record was emitted: %q", desc, writes[0].Payload)
-			goto classify
-		case !wantEmit:
-			goto classify
-		}
-		{
-			p := writes[0].Payload
-			exp := vlib.ExpRecord{LoggerName: "adapted", Msg: msg, Attrs: expectedTree(chain, recExp), TimeLayout: "15:04:05.000000Z07:00"}
-			if direct {
-				tt := ts
-				exp.Time = &tt
-			}
-			gotLevel := ""
-			var prob *vlib.Problem
-			switch format {
-			case "json":
-				if o, err := vlib.DecodeJSONRecord(p); err == nil {
-					gotLevel, _ = o.Vals["level"].(string)
-				}
-				exp.LevelName = gotLevel
-				prob = vlib.CheckJSONRecord(p, exp)
-			case "logfmt":
-				if pairs, err := vlib.ParseLogfmtRecord(firstLine(p)); err == nil {
-					for _, pr := range pairs {
-						if pr.Key == "level" {
-							gotLevel = pr.Str
-						}
+
+			desc := fmt.Sprintf("record #%d of %d: format=%s loggerLevel=%v(viaOptions=%v) chain=%s slogLevel=%d direct=%v msg=%s attrs=[%s]",
+				rec+1, nrec, format, L, viaOptLevel, describeChain(chain), int(level), direct, vlib.Short(msg), vlib.Describe(recExp))
+			func() {
+				defer func() {
+					if p := recover(); p != nil {
+						t.Fatalf("C15 %s: panicked: %v", desc, p)
 					}
+				}()
+				if direct {
+					r := logslog.NewRecord(ts, level, msg, 0)
+					r.AddAttrs(recAttrs...)
+					if err := h.Handle(ctx, r); err != nil {
+						t.Fatalf("C15 %s: Handle returned %v", desc, err)
+					}
+				} else {
+					args := make([]any, len(recAttrs))
+					for i, a := range recAttrs {
+						args[i] = a
+					}
+					logslog.New(h).Log(ctx, level, msg, args...)
 				}
-				exp.LevelName = gotLevel
-				prob = vlib.CheckLogfmtRecord(p, exp, !vlib.ProductionMode() && hasTopLevelError(vlib.Normalize(exp.Attrs)))
-			default:
-				txt := vlib.SimulateSGR(p).Text
-				if !strings.Contains(txt, "adapted") {
-					prob = &vlib.Problem{Sig: "C15/content", Msg: "colored record does not name the underlying logger: " + vlib.Short(txt)}
-				}
+			}()
+			writes := log.Writes()
+			wantEmit := direct || h.Enabled(ctx, level)
+			if std && !direct {
+				wantEmit = wantEnabled
 			}
-			if prob != nil {
-				sig := "C15/content"
+			switch {
+			case wantEmit && len(writes) != 1:
+				sig := "C15/emit"
 				if len(chain) > 0 {
 					sig = "C15/derived-handler"
 				}
-				vlib.Discrep(t, sig, "C15 %s: %s", desc, prob.Msg)
+				vlib.Discrep(t, sig, "C15 %s: expected exactly one record on the underlying logger's writers, got %d", desc, len(writes))
+				goto classify
+			case !wantEmit && len(writes) != 0:
+				vlib.Discrep(t, "C15/emit", "C15 %s: gated record was emitted: %q", desc, writes[0].Payload)
+				goto classify
+			case !wantEmit:
+				goto classify
 			}
-			if format != "color" {
-				if std {
-					if want := vlib.BuiltinNames[ns]; gotLevel != want {
-						vlib.Discrep(t, "C15/level", "C15 %s: emitted at level %q, want the namesake %q", desc, gotLevel, want)
+			{
+				p := writes[0].Payload
+				exp := vlib.ExpRecord{LoggerName: "adapted", Msg: msg, Attrs: expectedTree(chain, recExp), TimeLayout: "15:04:05.000000Z07:00"}
+				if direct {
+					tt := ts
+					exp.Time = &tt
+				}
+				gotLevel := ""
+				var prob *vlib.Problem
+				switch format {
+				case "json":
+					if o, err := vlib.DecodeJSONRecord(p); err == nil {
+						gotLevel, _ = o.Vals["level"].(string)
 					}
-				} else if gotLevel == "panic" || gotLevel == "fatal" {
-					vlib.Discrep(t, "C15/level", "C15 %s: log/slog level %d was mapped to the terminating severity %q", desc, int(level), gotLevel)
+					exp.LevelName = gotLevel
+					prob = vlib.CheckJSONRecord(p, exp)
+				case "logfmt":
+					if pairs, err := vlib.ParseLogfmtRecord(firstLine(p)); err == nil {
+						for _, pr := range pairs {
+							if pr.Key == "level" {
+								gotLevel = pr.Str
+							}
+						}
+					}
+					exp.LevelName = gotLevel
+					prob = vlib.CheckLogfmtRecord(p, exp, !vlib.ProductionMode() && hasTopLevelError(vlib.Normalize(exp.Attrs)))
+				default:
+					txt := vlib.SimulateSGR(p).Text
+					if !strings.Contains(txt, "adapted") {
+						prob = &vlib.Problem{Sig: "C15/content", Msg: "colored record does not name the underlying logger: " + vlib.Short(txt)}
+					}
+				}
+				if prob != nil {
+					sig := "C15/content"
+					if len(chain) > 0 {
+						sig = "C15/derived-handler"
+					}
+					vlib.Discrep(t, sig, "C15 %s: %s", desc, prob.Msg)
+				}
+				if format != "color" {
+					if std {
+						if want := vlib.BuiltinNames[ns]; gotLevel != want {
+							vlib.Discrep(t, "C15/level", "C15 %s: emitted at level %q, want the namesake %q", desc, gotLevel, want)
+						}
+					} else if gotLevel == "panic" || gotLevel == "fatal" {
+						vlib.Discrep(t, "C15/level", "C15 %s: log/slog level %d was mapped to the terminating severity %q", desc, int(level), gotLevel)
+					}
 				}
 			}
-		}
-	classify:
-		key := ""
-		if labels["derived-handler"] || labels["sibling-handlers"] || labels["group"] || labels["logvaluer"] || labels["non-standard-level"] || labels["any"] {
-			key = fmt.Sprintf("%s|%v|%d|%d|%s|%v|%v", format, L, int(level), len(chain), vlib.JoinSorted(labels), direct, wantEmit)
-		}
-		ls := []string{"format=" + format, fmt.Sprintf("emit=%v", wantEmit)}
-		for l := range labels {
-			ls = append(ls, l)
-		}
-		vlib.Case("TestHandler", key, ls...)
-		if key != "" && vlib.WantSample("TestHandler/"+format) {
-			vlib.Sample("TestHandler/"+format, map[string]any{"scenario": desc})
-		}
+		classify:
+			key := ""
+			if labels["derived-handler"] || labels["sibling-handlers"] || labels["several-records-one-handler"] || labels["group"] || labels["logvaluer"] || labels["non-standard-level"] || labels["any"] {
+				key = fmt.Sprintf("%s|%v|%d|%d|%s|%v|%v", format, L, int(level), len(chain), vlib.JoinSorted(labels), direct, wantEmit)
+			}
+			ls := []string{"format=" + format, fmt.Sprintf("emit=%v", wantEmit)}
+			for l := range labels {
+				ls = append(ls, l)
+			}
+			vlib.Case("TestHandler", key, ls...)
+			if key != "" && vlib.WantSample("TestHandler/"+format) {
+				vlib.Sample("TestHandler/"+format, map[string]any{"scenario": desc})
+			}
+		} // records
 	})
 }
 
@@ -392,7 +403,13 @@ func TestBridge(t *testing.T) {
 		lg.SetLevel(L)
 		debug := L == slog.DebugLevel
 		std := slog.NewLogLogger(lg, S)
-		desc := fmt.Sprintf("logger level %v, bridge severity %v, %s(%q), format %s", L, S, how, msg, format)
+		built := L
+		if rapid.IntRange(0, 2).Draw(t, "levelChangedAfterBridgeBuilt") == 0 {
+			L = rapid.SampledFrom(vlib.Builtins).Draw(t, "laterLevel")
+			lg.SetLevel(L) // admission is decided per message by the logger's CURRENT level
+			debug = debug || L == slog.DebugLevel
+		}
+		desc := fmt.Sprintf("logger level %v (was %v when the bridge was built), bridge severity %v, %s(%q), format %s", L, built, S, how, msg, format)
 		func() {
 			defer func() {
 				if p := recover(); p != nil {
